@@ -323,6 +323,10 @@ func (db *DB) processFollowers(stop <-chan interface{}) {
 			includedFollowers = includedFollowers[:0]
 			for partitionKeys, partition := range partitions {
 				pr := result.partitions[partitionKeys]
+				if pr == nil {
+					// entry could not be mapped to partitions, skip it
+					continue
+				}
 				pid := pr.pid
 				for tableName, table := range partition.tables {
 					specs := table.followersByPartition[pid]
@@ -478,19 +482,24 @@ func (db *DB) mapPartitionRequests(in chan *partitionRequest, mapped chan *parti
 }
 
 func (db *DB) mapPartitionRequest(h hash.Hash32, req *partitionRequest, mapped chan *partitionsResult) {
-	defer func() {
-		p := recover()
-		if p != nil {
-			db.log.Errorf("Panic in following: %v", p)
-		}
-	}()
-
 	partitions := req.partitions
 	entry := req.entry
 	result := &partitionsResult{
 		entry:      entry,
 		partitions: make(map[string]*partitionResult),
 	}
+
+	defer func() {
+		p := recover()
+		if p != nil {
+			db.log.Errorf("Panic in following: %v", p)
+			// reducePartitionRequests waits for one result per queued request, so
+			// a result has to be delivered even for an entry that could not be
+			// mapped. The entry is skipped (not offered to any follower).
+			result.partitions = make(map[string]*partitionResult)
+			mapped <- result
+		}
+	}()
 
 	data := entry.data
 	// Skip timestamp
